@@ -25,7 +25,13 @@ Print Assumptions C02_chain_linked.
 (* The monitor never objects: codes 201/202 (linkage, inverse views), 203 (window), 211-214 (a block
    is announced at height tip+1 and added on top of the tip, the chain never changes without an
    announcement in a process step), 221 (a headers message may revert to a fork point but never
-   below genesis), 231 (no other step touches the chain). *)
+   below genesis), 222 (once the start block is found - start height >= 0 in the digest before the
+   step - a headers message ONLY reverts: the chain after it is a prefix of the chain before it, so
+   every block above a fork point enters through a process step and is announced at fork+1, fork+2, ...;
+   the headers handler never stores a block itself again), 223 (while the start block is not found a
+   headers message may store bare headers, but in the message that finds the start block at height s
+   nothing is stored at height >= s), 231 (no other step touches the chain).
+   The model fact behind 222/223 is handle_headers_rel (Sync_Proofs.v): hdr_rel s (handle_headers s hs).1. *)
 Theorem C02_monitor_passes :
   forall (MAXR LIM HT HDT BT DELTA : Z) (parents : list (Z * Z)) (rk : Z -> Z) (start : Z) (ops : list op),
     0 <= MAXR ->
